@@ -332,3 +332,45 @@ Proof.
   destruct (op =? CTL_ADD); [destruct (ep_find (ep k) fd); cbn; congruence|].
   destruct (op =? CTL_MOD); destruct (ep_find (ep k) fd); cbn; congruence.
 Qed.
+
+(* ---------- positions in lists ---------- *)
+Lemma nth_error_snoc : forall A (l : list A) a n,
+  nth_error (l ++ [a]) n = if (n <? length l)%nat then nth_error l n
+                           else if (n =? length l)%nat then Some a else None.
+Proof.
+  intros A l a n. destruct (Nat.ltb_spec n (length l)) as [H|H].
+  - apply nth_error_app1. assumption.
+  - rewrite nth_error_app2 by assumption. destruct (Nat.eqb_spec n (length l)) as [->|N].
+    + rewrite Nat.sub_diag. reflexivity.
+    + destruct (n - length l)%nat eqn:Q; [lia|]. cbn. destruct n0; reflexivity.
+Qed.
+Lemma set_nth_length : forall A (l : list A) i v, length (set_nth l i v) = length l.
+Proof. induction l as [|a l IH]; intros [|i] v; cbn [set_nth length]; try reflexivity. rewrite IH. reflexivity. Qed.
+Lemma nth_error_set_nth : forall A (l : list A) i v n,
+  nth_error (set_nth l i v) n = if (n =? i)%nat && (i <? length l)%nat then Some v else nth_error l n.
+Proof.
+  induction l as [|a l IH]; intros i v n.
+  - cbn. destruct (n =? i)%nat; destruct n; reflexivity.
+  - destruct i as [|i]; destruct n as [|n]; cbn [set_nth nth_error length]; try reflexivity.
+    rewrite IH. reflexivity.
+Qed.
+Lemma nth_error_firstn : forall A (l : list A) m n,
+  nth_error (firstn m l) n = if (n <? m)%nat then nth_error l n else None.
+Proof.
+  induction l as [|a l IH]; intros m n.
+  - rewrite firstn_nil. destruct (n <? m)%nat; destruct n; reflexivity.
+  - destruct m as [|m]; [cbn; destruct n; reflexivity|]. destruct n as [|n]; [reflexivity|].
+    cbn [firstn nth_error]. rewrite IH. reflexivity.
+Qed.
+Lemma nth_z_nat : forall A (l : list A) i, 0 <= i -> nth_z l i = nth_error l (Z.to_nat i).
+Proof. intros. unfold nth_z. destruct (Z.ltb_spec i 0); [lia|reflexivity]. Qed.
+Lemma nth_error_lt : forall A (l : list A) n a, nth_error l n = Some a -> (n < length l)%nat.
+Proof. intros. apply nth_error_Some. congruence. Qed.
+Lemma nth_error_ex : forall A (l : list A) n, (n < length l)%nat -> exists a, nth_error l n = Some a.
+Proof. intros A l n H. destruct (nth_error l n) eqn:E; [eauto|]. apply nth_error_None in E. lia. Qed.
+
+Lemma NoDup_range_length : forall l n, NoDup l -> (forall x, In x l -> 0 <= x < Z.of_nat n) -> (length l <= n)%nat.
+Proof.
+  intros l n ND H. rewrite <- (zseq_length n 0). apply NoDup_incl_length; [assumption|].
+  intros x Hx. apply In_zseq'. apply H in Hx. lia.
+Qed.
